@@ -412,78 +412,63 @@ def limit_rule(ctx, r):
                           f.blocks[bad_true[0]]["term"].get("loc"), fn=f)
                 else:
                     r.ok(key + "|result", "Ok(!should_quit()) on fall-through; constant returns are Ok(false) only", fn=f)
-        # should_quit reads max_matches and match_count
-        g = facts.fn(sq)
-        rd, wr_, mb = field_rw(g)
-        need = {(adt, "match_count")}
+        # begin(): Ok(false) exactly under max_matches == Some(0) (value table)
+        from ..flow import table, ret_set
         cfgadt = {"standard": "grep_printer::standard::Config", "json": "grep_printer::json::Config",
                   "summary": "grep_printer::summary::Config"}[name]
-        need.add((cfgadt, "max_matches"))
-        if name != "summary":
-            need.add((adt, "after_context_remaining"))
-        miss = need - rd
-        if miss:
-            r.bad("%s|should_quit|reads" % name, "should_quit() does not read %s" % sorted(miss), fn=g)
-        else:
-            r.ok("%s|should_quit|reads" % name, "reads %s" % sorted(f2 for _, f2 in need), fn=g)
-        # begin returns Ok(false) under max_matches == Some(0)
         b = sink_method(facts, adt, "begin")
-        rd, _, _ = field_rw(b)
-        consts = [st for bb, j, st in b.stmts() if st["k"] == "assign" and st["place"]["l"] == 0 and
-                  st["rv"]["k"] == "agg" and st["rv"].get("variant") == "Ok" and
-                  (st["rv"]["ops"][0].get("const") or {}).get("val") == 0]
-        if (cfgadt, "max_matches") in rd and consts:
-            r.ok("%s|begin" % name, "begin() reads max_matches and has an Ok(false) return", fn=b)
+        wrongb = []
+        for row, sx in table(facts, b, fields={(cfgadt, "max_matches"): [V("None", None), V("Some", I(0)), V("Some", I(3))],
+                                               (cfgadt, "always_begin_end"): [I(0)]}):
+            mm = row[("field", (cfgadt, "max_matches"))]
+            zero = mm == V("Some", I(0))
+            rv = {v for v in ret_set(sx) if not (v is not None and v[0] == "v" and v[1] == "Err")}
+            if rv != {V("Ok", I(0 if zero else 1))}:
+                wrongb.append("max_matches=%s ⇒ %s" % (mm, sorted(map(str, rv))))
+        if wrongb:
+            r.bad("%s|begin" % name, "begin() does not refuse the search under a zero match limit (%s)" % wrongb[0], fn=b)
         else:
-            r.bad("%s|begin" % name, "begin() does not refuse the search under a zero match limit", fn=b)
-    # the limit predicates themselves
-    from .. import wire as Wr
+            r.ok("%s|begin" % name, "begin() answers Ok(false) exactly under max_matches == Some(0)", fn=b)
+    # the limit predicates themselves, as value tables: max_matches ∈ {None, Some(3)}, match_count ∈ {2, 3, 4},
+    # after_context_remaining ∈ {0, 1}. A match with early returns, map_or with a closure, a let-else read the same.
     for name, adt in PRINTERS.items():
         cfgadt = {"standard": "grep_printer::standard::Config", "json": "grep_printer::json::Config",
                   "summary": "grep_printer::summary::Config"}[name]
         for fnname in (("should_quit", "match_more_than_limit") if name != "summary" else ("should_quit",)):
             g = facts.fn(adt + "::" + fnname)
-            ebg = ExprBuilder(g)
             key = "%s|%s|def" % (name, fnname)
-            arms, info = Wr.variant_arms(g, ebg, lambda e: mentions_field(e, cfgadt, "max_matches"))
-            if not info:
-                r.bad(key, "%s::%s no longer matches on config.max_matches" % (adt.split("::")[-1], fnname), fn=g, construct=fnname)
-                continue
-            tn = arms.get("None", info[0][3])
-            sn = Sccp(g).run([(tn, {})])
-            vn = {x for v in sn.ret_values.values() for x in value_set(v)}
-            if vn != {I(0)}:
-                r.bad(key, "without a match limit %s answers %s" % (fnname, vn), fn=g, construct=fnname)
-                continue
-
-            def is_cmp(e, ops):
-                return e.k == "bin" and e[1] in ops and mentions_field(e, adt, "match_count") and \
-                    any(y.k == "dc" and y[2] == "Some" for y in walk(e))
-            if fnname == "match_more_than_limit":
-                ret = ebg.local(0)
-                fin = [x for x in (ret[2] if ret.k == "phi" else [ret]) if x.k != "const"]
-                okd = fin and all(is_cmp(x, ("Gt",)) and mentions_field(x[2], adt, "match_count") for x in fin)
-                spec = "Some(limit) ∧ match_count > limit"
-            elif name == "summary":
-                ret = ebg.local(0)
-                fin = [x for x in (ret[2] if ret.k == "phi" else [ret]) if x.k != "const"]
-                okd = fin and all(is_cmp(x, ("Ge",)) and mentions_field(x[2], adt, "match_count") for x in fin)
-                spec = "Some(limit) ∧ match_count >= limit"
+            flds = {(cfgadt, "max_matches"): [V("None", None), V("Some", I(3))], (adt, "match_count"): [I(2), I(3), I(4)]}
+            if name != "summary":
+                flds[(adt, "after_context_remaining")] = [I(0), I(1)]
+            wrong = []
+            reads = set()
+            for row, sx in table(facts, g, fields=flds):
+                lim = row[("field", (cfgadt, "max_matches"))]
+                mc = row[("field", (adt, "match_count"))][1]
+                acr = row.get(("field", (adt, "after_context_remaining")), I(0))[1]
+                if fnname == "match_more_than_limit":
+                    want = lim[1] == "Some" and mc > 3
+                    spec = "Some(limit) ∧ match_count > limit"
+                elif name == "summary":
+                    want = lim[1] == "Some" and mc >= 3
+                    spec = "Some(limit) ∧ match_count >= limit"
+                else:
+                    want = lim[1] == "Some" and mc >= 3 and acr == 0
+                    spec = "Some(limit) ∧ ¬(match_count < limit) ∧ after_context_remaining == 0"
+                if ret_set(sx) != {I(int(want))}:
+                    wrong.append("max_matches=%s match_count=%d after_context_remaining=%d ⇒ %s" % (
+                        "None" if lim[1] == "None" else 3, mc, acr, sorted(map(str, ret_set(sx)))))
+            if wrong:
+                r.bad(key, "%s::%s is no longer `%s` (%s)" % (adt.split("::")[-1], fnname, spec, wrong[0]), fn=g, construct=fnname)
             else:
-                lt = cond_switches(g, lambda e: is_cmp(e, ("Lt",)) and mentions_field(e[2], adt, "match_count"), ebg)
-                ret = ebg.local(0)
-                fin = [x for x in (ret[2] if ret.k == "phi" else [ret]) if x.k != "const"]
-                okd = bool(lt) and fin and all(x.k == "bin" and x[1] == "Eq" and mentions_field(x, adt, "after_context_remaining") and
-                                             any(y.k == "const" and y[1] == 0 for y in (x[2], x[3])) for x in fin)
-                if okd:
-                    s1 = Sccp(g).run([(lt[0][1][1], {})])
-                    okd = {x for v in s1.ret_values.values() for x in value_set(v)} == {I(0)}
-                spec = "Some(limit) ∧ ¬(match_count < limit) ∧ after_context_remaining == 0"
-            if okd:
                 r.ok(key, "%s ≡ %s" % (fnname, spec), fn=g)
-            else:
-                r.bad(key, "%s::%s is no longer `%s` (returns `%s`)" % (adt.split("::")[-1], fnname, spec, show(ebg.local(0))[:70]), fn=g,
-                      construct=fnname)
+            if fnname == "should_quit":
+                if wrong:
+                    r.bad("%s|should_quit|reads" % name, "should_quit() does not decide on max_matches, match_count%s"
+                          % ("" if name == "summary" else ", after_context_remaining"), fn=g)
+                else:
+                    r.ok("%s|should_quit|reads" % name, "decides on max_matches, match_count%s"
+                         % ("" if name == "summary" else ", after_context_remaining"), fn=g)
     # after_context_remaining written in matched (both arms) and decremented in context under After
     for name in ("standard", "json"):
         adt = PRINTERS[name]
